@@ -2013,103 +2013,221 @@ class GA(G):
     def __init__(self, draw, cfg=None):
         G.__init__(self, draw, cfg or Cfg(max_depth=2, p_confuse=0))
 
+    UNSAFE = ("capture", "elem2", "keyed", "module")
+
     def scenario(self):
+        """Objects, aliases created at the start and later, mutations through drawn aliases (directly or inside a
+        helper function, so that a list can grow in a callee frame while aliases live in the caller's), identity
+        observations after every step.
+
+        With the known finding's hazard on, the generator keeps its own account of every list's length and capacity
+        (a literal of n elements has capacity max(n, 4), measured on the tree; growth: cap = max(2 cap, needed)): an alias kept where the vm does not rewrite pointers after a move
+        (closure capture, module variable, two levels deep, map key) may be created at any time, but from then on
+        that list is only mutated within its capacity."""
         hazard_growth = "list-growth-with-mixed-alias-storage" in self.cfg.hazards
         in_fn = self.chance(70)
         body = []
         pre = [("class", "Box", None, ("init", ["v"], [("expr", ("assign", ("prop", ("self",), "v"), ("var", "v")))]), [], []),
-               ("let", "modA", ("nil",)), ("let", "modB", ("nil",))]
+               ("let", "modA", ("nil",)), ("let", "modB", ("nil",)),
+               ("fn", "grow", ["l", "a", "b"], [("expr", ("call", ("prop", ("var", "l"), "push"), [("var", "a"), ("var", "b")])),
+                                                ("return", ("var", "l"))]),
+               ("fn", "ins", ["l", "v"], [("expr", ("call", ("prop", ("var", "l"), "insert"), [("num", 0.0), ("var", "v")])),
+                                          ("return", ("var", "l"))]),
+               ("fn", "same", ["x", "y"], [("return", ("bin", "==", ("var", "x"), ("var", "y")))])]
         objs = []
-        nobj = self.i(1, 2)
-        for oi in range(nobj):
+        counter = [0]
+        restricted_module = hazard_growth and not in_fn
+        # a local that any closure of the function captures lives in a box from its declaration on, and the vm does not
+        # look into boxes when it rewrites pointers: whether captures occur is therefore decided up front
+        will_capture = self.chance(25)
+        self.meta = {"unsafe_growth": False}
+
+        def add_alias(o, late):
+            """-> statements declaring one more alias of object o (and registers it)"""
+            name, kind = o["name"], o["kind"]
+            kinds = [x for x in ALIAS_KINDS[1:] if x != "capture" or will_capture] + ["keyed", "keyed"]
+            k = self.pick(kinds)
+            if kind == "list" and hazard_growth and in_fn and not will_capture and k in self.UNSAFE and self.chance(70 if late else 85):
+                # keep most lists free to grow for most of their history
+                k = self.pick(["elem", "tuple", "mapval", "field"])
+            if kind == "list" and restricted_module:
+                k = "module"
+            src = self.pick(o["aliases"])[1] if late else ("var", name)
+            an = "%s_%s%d" % (name, k, counter[0])
+            counter[0] += 1
+            out = []
+            if k == "module":
+                slot = "modA" if o["index"] == 0 else "modB"
+                out.append(("expr", ("assign", ("var", slot), src)))
+                acc = ("var", slot)
+                if any(a[0] == "module" for a in o["aliases"]):
+                    return out
+            elif k == "field":
+                out.append(("let", an, ("call", ("var", "Box"), [src])))
+                acc = ("prop", ("var", an), "v")
+            elif k == "elem":
+                out.append(("let", an, ("list", [("num", 7.0), src])))
+                acc = ("index", ("var", an), ("num", 1.0))
+            elif k == "elem2":
+                out.append(("let", an, ("list", [("list", [src])])))
+                acc = ("index", ("index", ("var", an), ("num", 0.0)), ("num", 0.0))
+            elif k == "mapval":
+                out.append(("let", an, ("map", [(("str", "k"), src)])))
+                acc = ("index", ("var", an), ("str", "k"))
+            elif k == "tuple":
+                out.append(("let", an, ("tuple", [src, ("num", 1.0)])))
+                acc = ("index", ("var", an), ("num", 0.0))
+            elif k == "capture":
+                out.append(("let", an, ("lambda", [], ("expr", src))))
+                acc = ("call", ("var", an), [])
+            else:  # keyed: a map that uses the object as key
+                out.append(("let", an, ("map", [(src, ("str", "found" + name))])))
+                o["keyed"].append(an)
+                acc = None
+            if kind == "list" and k in self.UNSAFE:
+                o["unsafe"] = True
+                if hazard_growth and in_fn:
+                    o["frozen"] = True
+            if acc is not None:
+                o["aliases"].append((k, acc))
+            return out
+
+        for oi in range(self.i(1, 2)):
             kind = self.pick(["list", "list", "list", "map", "inst"])
             name = "o%d" % oi
+            n0 = 0
             if kind == "list":
-                init = ("list", [("num", float(k)) for k in range(self.i(0, 4))])
+                n0 = self.i(0, 4)
+                init = ("list", [("num", float(k)) for k in range(n0)])
             elif kind == "map":
                 init = ("map", [])
             else:
                 init = ("call", ("var", "Box"), [("num", 0.0)])
             body.append(("let", name, init))
-            aliases = [("local" if in_fn else "module", ("var", name))]
-            kinds = []
-            for _ in range(self.i(1, 5)):
-                k = self.pick(ALIAS_KINDS[1:])
-                if hazard_growth and kind == "list":
-                    # known finding: only keep aliases in the same storage class as the original variable
-                    k = self.pick(["elem", "tuple", "mapval", "field"]) if in_fn else "module"
-                kinds.append(k)
-            for ai, k in enumerate(kinds):
-                an = "%s_%s%d" % (name, k, ai)
-                if k == "module":
-                    slot = "modA" if oi == 0 else "modB"
-                    body.append(("expr", ("assign", ("var", slot), ("var", name))))
-                    aliases.append((k, ("var", slot)))
-                elif k == "field":
-                    body.append(("let", an, ("call", ("var", "Box"), [("var", name)])))
-                    aliases.append((k, ("prop", ("var", an), "v")))
-                elif k == "elem":
-                    body.append(("let", an, ("list", [("num", 7.0), ("var", name)])))
-                    aliases.append((k, ("index", ("var", an), ("num", 1.0))))
-                elif k == "elem2":
-                    body.append(("let", an, ("list", [("list", [("var", name)])])))
-                    aliases.append((k, ("index", ("index", ("var", an), ("num", 0.0)), ("num", 0.0))))
-                elif k == "mapval":
-                    body.append(("let", an, ("map", [(("str", "k"), ("var", name))])))
-                    aliases.append((k, ("index", ("var", an), ("str", "k"))))
-                elif k == "tuple":
-                    body.append(("let", an, ("tuple", [("var", name), ("num", 1.0)])))
-                    aliases.append((k, ("index", ("var", an), ("num", 0.0))))
-                elif k == "capture":
-                    body.append(("let", an, ("lambda", [], ("expr", ("var", name)))))
-                    aliases.append((k, ("call", ("var", an), [])))
-            # a map keyed by the object and a list containing it, for identity based lookups
-            body.append(("let", name + "_keyed", ("map", [(("var", name), ("str", "found" + name))])))
+            o = {"name": name, "kind": kind, "index": oi, "aliases": [("local" if in_fn else "module", ("var", name))],
+                 "keyed": [], "len": n0, "cap": max(n0, 4), "unsafe": will_capture or not in_fn,
+                 "frozen": hazard_growth and in_fn and will_capture}
+            objs.append(o)
+            for _ in range(self.i(1, 3)):
+                body.extend(add_alias(o, False))
+            # containers holding the object, for identity based membership tests
             body.append(("let", name + "_in", ("list", [("num", 1.0), ("var", name)])))
             body.append(("let", name + "_tup", ("tuple", [("var", name)])))
-            objs.append((name, kind, aliases))
-        # history
-        for _ in range(self.i(3, 10)):
-            name, kind, aliases = self.pick(objs)
-            via = self.pick(aliases)[1]
-            c = self.i(0, 9)
+
+        def grows(o, k):
+            ln, cap = o["len"], o["cap"]
+            g = False
+            for _ in range(k):
+                ln += 1
+                if ln > cap:
+                    cap = max(cap * 2, ln)
+                    g = True
+            if g and o["unsafe"] and not o["frozen"]:
+                self.meta["unsafe_growth"] = True
+            return g, ln, cap
+
+        def guarded(stmt):
+            return ("try", [stmt], [("e", None, [])])
+
+        for _ in range(self.i(4, 12)):
+            o = self.pick(objs)
+            name, kind = o["name"], o["kind"]
+            if self.chance(15) and len(o["aliases"]) < 7:
+                body.extend(add_alias(o, True))
+            via = self.pick(o["aliases"])[1]
+            c = self.i(0, 11)
             if kind == "list":
+                helper_ok = not restricted_module
+                force_k = None
+                if not o["frozen"] and self.chance(35):
+                    # steer to the capacity boundary: the generator knows exactly how many elements still fit
+                    need = o["cap"] - o["len"] + 1
+                    if need == 1:
+                        c = self.pick([0, 6, 7, 7])  # push one / ins helper / insert
+                        force_k = 1
+                    elif need == 2 and self.chance(40):
+                        c = 5  # grow helper pushes two
+                    elif need <= 4:
+                        c = 0
+                        force_k = need
                 if c < 5:
-                    body.append(("expr", ("call", ("prop", via, "push"), [("num", float(self.i(0, 9))) for _ in range(self.i(1, 4))])))
-                elif c < 6:
-                    body.append(("expr", ("call", ("prop", via, "insert"), [("num", 0.0), ("num", 5.0)])))
+                    k = force_k or self.i(1, 4)
+                    g, ln, cap = grows(o, k)
+                    if g and o["frozen"]:
+                        k = o["cap"] - o["len"]
+                        g, ln, cap = grows(o, k)
+                    if k > 0:
+                        body.append(("expr", ("call", ("prop", via, "push"), [("num", float(self.i(0, 9))) for _ in range(k)])))
+                        o["len"], o["cap"] = ln, cap
+                    else:
+                        body.append(("expr", ("call", ("prop", via, "pop"), [])))
+                        o["len"] = max(0, o["len"] - 1)
                 elif c < 7:
-                    body.append(("expr", ("call", ("prop", via, "pop"), [])))
+                    # growth inside a callee frame; the callee's (rewritten) alias comes back and is compared
+                    g, ln, cap = grows(o, 2 if c == 5 else 1)
+                    if (g and o["frozen"]) or not helper_ok:
+                        body.append(guarded(("expr", ("assign", ("index", via, ("num", 0.0)), ("num", 42.0)))))
+                    else:
+                        call = ("call", ("var", "grow"), [via, ("num", 1.0), ("num", 2.0)]) if c == 5 else \
+                            ("call", ("var", "ins"), [via, ("num", 3.0)])
+                        other = self.pick(o["aliases"])[1]
+                        form = self.i(0, 2)
+                        if form == 0:
+                            body.append(("print", ("bin", "==", call, other)))
+                        elif form == 1:
+                            body.append(("print", ("call", ("var", "same"), [call, other])))
+                        else:
+                            r = "%s_ret%d" % (name, counter[0])
+                            counter[0] += 1
+                            body.append(("let", r, call))
+                            o["aliases"].append(("local", ("var", r)))
+                        o["len"], o["cap"] = ln, cap
                 elif c < 8:
-                    body.append(("try", [("expr", ("assign", ("index", via, ("num", 0.0)), ("num", 42.0)))], [("e", None, [])]))
+                    g, ln, cap = grows(o, 1)
+                    if g and o["frozen"]:
+                        body.append(guarded(("expr", ("assign", ("index", via, ("num", 0.0)), ("num", 41.0)))))
+                    else:
+                        body.append(("expr", ("call", ("prop", via, "insert"), [("num", 0.0), ("num", 5.0)])))
+                        o["len"], o["cap"] = ln, cap
                 elif c < 9:
-                    body.append(("try", [("expr", ("call", ("prop", via, "remove"), [("num", 0.0)]))], [("e", None, [])]))
+                    body.append(("expr", ("call", ("prop", via, "pop"), [])))
+                    o["len"] = max(0, o["len"] - 1)
+                elif c < 10:
+                    body.append(guarded(("expr", ("assign", ("index", via, ("num", 0.0)), ("num", 42.0)))))
+                elif c < 11:
+                    body.append(guarded(("expr", ("call", ("prop", via, "remove"), [("num", 0.0)]))))
+                    o["len"] = max(0, o["len"] - 1)
                 else:
                     body.append(("expr", ("call", ("prop", via, "clear"), [])))
+                    o["len"] = 0
             elif kind == "map":
-                if c < 7:
+                if c < 8:
                     body.append(("expr", ("assign", ("index", via, ("num", float(self.i(0, 20)))), ("num", 1.0))))
                 else:
-                    body.append(("try", [("expr", ("call", ("prop", via, "remove"), [("num", float(self.i(0, 20)))]))], [("e", None, [])]))
+                    body.append(guarded(("expr", ("call", ("prop", via, "remove"), [("num", float(self.i(0, 20)))]))))
             else:
                 body.append(("expr", ("assign", ("prop", via, "v"), ("num", float(self.i(0, 99))))))
+            if kind == "list" and self.chance(30) and len(o["aliases"]) < 7:
+                # a new alias taken right after the mutation, before anything else touches the list
+                body.extend(add_alias(o, True))
             # observations
-            for _ in range(self.i(1, 3)):
-                name2, kind2, aliases2 = self.pick(objs)
-                a1 = self.pick(aliases2)[1]
-                a2 = self.pick(aliases2)[1]
+            for _ in range(self.i(0, 3)):
+                o2 = self.pick(objs)
+                name2, kind2 = o2["name"], o2["kind"]
+                a1 = self.pick(o2["aliases"])[1]
+                a2 = self.pick(o2["aliases"])[1]
                 oc = self.i(0, 9)
                 if oc == 3 and len(objs) < 2:
                     oc = 0
-                if hazard_growth and kind2 == "list" and 4 <= oc < 6:
-                    oc = 0  # map keys are not rewritten after a list moves (known finding)
+                if 4 <= oc < 6 and not o2["keyed"]:
+                    oc = 1
                 if oc < 3:
-                    body.append(("print", ("bin", "==", a1, a2)))
+                    body.append(("print", ("bin", "==", a1, a2)) if oc else ("print", ("call", ("var", "same"), [a1, a2])))
                 elif oc < 4:
-                    other = objs[0] if objs[1][0] == name2 else objs[1]
-                    body.append(("print", ("bin", "==", a1, self.pick(other[2])[1])))
+                    other = objs[0] if objs[1]["name"] == name2 else objs[1]
+                    body.append(("print", ("bin", "==", a1, self.pick(other["aliases"])[1])))
                 elif oc < 6:
-                    body.append(("try", [("print", ("index", ("var", name2 + "_keyed"), a1))],
+                    body.append(("try", [("print", ("index", ("var", self.pick(o2["keyed"])), a1))],
                                  [("e", None, [("print", ("call", ("prop", ("call", ("prop", ("var", "e"), "cls"), []), "name"), []))])]))
                 elif oc < 7:
                     body.append(("print", ("call", ("prop", ("var", name2 + "_in"), self.pick(["has", "index"])), [a1])))
@@ -2117,8 +2235,18 @@ class GA(G):
                     body.append(("print", ("call", ("prop", ("var", name2 + "_tup"), self.pick(["has", "index"])), [a1])))
                 else:
                     if kind2 == "list":
-                        body.append(("print", ("call", ("prop", a1, "len"), [])))
-                        body.append(("print", a2))
+                        form = self.i(0, 3)
+                        if form == 0:
+                            body.append(("print", ("call", ("prop", a1, "len"), [])))
+                            body.append(("print", a2))
+                        elif form == 1:
+                            # reads through the list's own natives (each of them looks for a pending move first)
+                            body.append(("try", [("print", ("index", a1, ("num", 0.0)))],
+                                         [("e", None, [("print", ("str", "empty"))])]))
+                        elif form == 2:
+                            body.append(("print", ("call", ("prop", a1, self.pick(["has", "index"])), [("num", 5.0)])))
+                        else:
+                            body.append(("print", ("call", ("prop", ("call", ("prop", a1, "slice"), []), "len"), [])))
                     elif kind2 == "map":
                         body.append(("print", ("call", ("prop", a1, "len"), [])))
                     else:
@@ -2133,6 +2261,16 @@ def alias_program(cfg=None):
     def strat(draw):
         g = GA(draw, cfg)
         return g.scenario()
+    return strat()
+
+
+def alias_scenario(cfg=None):
+    """-> (program, {"unsafe_growth": a list grew while an alias sat where the vm does not rewrite pointers})"""
+    @st.composite
+    def strat(draw):
+        g = GA(draw, cfg)
+        prog = g.scenario()
+        return (prog, dict(g.meta))
     return strat()
 
 
